@@ -966,14 +966,13 @@ impl Circuit {
                             neg_out ^= l.is_negative();
                             l.positive()
                         } else {
-                            let l = l.positive();
-                            debug_assert!(l != Literal::TRUE);
-                            if l == Literal::FALSE {
-                                continue; // x ⊕ ⊥ ≡ x
-                            }
-                            l
+                            l.positive()
                         };
-                        if l.is_input() && l.get_input().unwrap() > known_inputs {
+                        debug_assert!(l != Literal::TRUE);
+                        if l == Literal::FALSE {
+                            continue; // x ⊕ ⊥ ≡ x
+                        }
+                        if l.is_input() && l.get_input().unwrap() >= known_inputs {
                             return Err(l);
                         }
                         mapped.push(l);
